@@ -88,6 +88,19 @@ def run(chk):
             n_eval += per_circuit(chk, P, kname, c, fz, ft)
         except (EvalFail, KeyError) as e:
             chk.ob("C11.E.result-evaluable", f"{kname}", False, file=FILE, func="sensitization_transform/sensitivity_transform", fact={"problem": f"a transform result cannot be evaluated: {e}"})
+    from ..stale import circuit_snapshot, stale_state_rule
+    from ..minieval import ModelRaise as _MR
+
+    def _mk_call(file_, fname_, *extra):
+        def _call(c):
+            r = P.call(file_, fname_, c, *extra)
+            if r[0] != "return":
+                raise _MR(r[1], r[2] if len(r) > 2 else "")
+            return r[1]
+        return _call
+
+    stale_state_rule(chk, "C11.H.no-stale-state", _mk_call(FILE, "sensitization_transform", "g"), circuit_snapshot, FILE, "sensitization_transform")
+    stale_state_rule(chk, "C11.H.no-stale-state", _mk_call(FILE, "sensitivity_transform", "o"), circuit_snapshot, FILE, "sensitivity_transform")
     chk.floor("evaluations", n_eval, 300)
 
 
